@@ -177,8 +177,8 @@ example : (exFrame.finalize.localOff, exFrame.finalize.daOff, exFrame.finalize.p
 Part 2 (x86-32 / x86-64): `prolog ; any confined body ; epilog` on the stack machine.
 
 `X86In` lists what an x86 calling convention and the user put into a frame before `finalize`
-(register sizes of the convention, preserved GP mask below bit 16 with `sp` clear and the frame pointer
-set, minimum dynamic alignment = 2 x natural alignment, SA register unset or a real GP register).
+(register sizes of the convention, preserved GP mask below bit 16 with `sp` clear - the frame pointer need not
+be preserved by the convention, fixes/C07-5 -, any attribute bits incl. a stale kAlignedVecSR, fixes/C07-6, minimum dynamic alignment = 2 x natural alignment, SA register unset or a real GP register).
 `x86_wf_of_finalize` derives the well-formedness facts `X86WF` for the finalized frame, and
 `x86_prolog_body_epilog` is the property itself for EVERY such frame, EVERY entry state the convention
 allows and EVERY body confined to the declared areas.
@@ -192,10 +192,8 @@ structure X86In (g : Frame) : Prop where
   sr3 : g.srSize 3 = 8 ∧ g.srAlign 3 = 8
   pres16 : g.preserved 0 < 2 ^ 16
   presSp : (g.preserved 0).testBit 4 = false
-  presFp : (g.preserved 0).testBit 5 = true
   nat : g.natAlign ≤ g.finalAlign ∧ g.minDynAlign = 2 * g.natAlign ∧ ∃ n, g.natAlign = 2 ^ n
   sa : g.saRegId = 0xFF ∨ g.saRegId < 16
-  attr6 : g.attrs.testBit 6 = false
 
 theorem x86_wf_of_finalize (g : Frame) (hin : LayoutIn g) (hx : X86In g) : X86WF g.finalize := by
   have lay := finalize_layout_full g hin
@@ -291,20 +289,22 @@ theorem x86_wf_of_finalize (g : Frame) (hin : LayoutIn g) (hx : X86In g) : X86WF
       rcases hx.arch with h | h <;> rw [h] <;> rfl
     simp [List.foldl, ha, hg1, hg2, hg3]
     omega
-  -- attribute bits: finalize may only add kAlignedVecSR (bit 6)
-  have hattr : ∀ i, i ≠ 6 → g.finalize.attrs.testBit i = g.attrs.testBit i := by
-    intro i hi
-    show (if g.fin1.alignedVecC then g.attrs ||| 0x40 else g.attrs).testBit i = _
+  -- attribute bits: finalize only recomputes kAlignedVecSR (bit 6)
+  have hattr : ∀ i, i < 32 → i ≠ 6 → g.finalize.attrs.testBit i = g.attrs.testBit i := by
+    intro i hi32 hi
+    show (if g.fin1.alignedVecC then g.attrs ||| 0x40 else g.attrs &&& (2 ^ 32 - 1 - 0x40)).testBit i = _
     split
     · exact attrs_or40 _ i hi
-    · rfl
-  have hfp : g.finalize.hasFP = g.hasFP := hattr 4 (by omega)
-  have hcalls : g.finalize.hasFuncCalls = g.hasFuncCalls := hattr 5 (by omega)
+    · exact attrs_clear40 _ i hi32 hi
+  have hfp : g.finalize.hasFP = g.hasFP := hattr 4 (by omega) (by omega)
+  have hcalls : g.finalize.hasFuncCalls = g.hasFuncCalls := hattr 5 (by omega) (by omega)
   have hav : g.finalize.alignedVecSR = g.fin1.alignedVecC := by
-    show (if g.fin1.alignedVecC then g.attrs ||| 0x40 else g.attrs).testBit 6 = _
+    show (if g.fin1.alignedVecC then g.attrs ||| 0x40 else g.attrs &&& (2 ^ 32 - 1 - 0x40)).testBit 6 = _
     cases h : g.fin1.alignedVecC with
     | true => simp only [if_true]; rw [Nat.testBit_or]; simp; exact Or.inr (by decide)
-    | false => simp only [Bool.false_eq_true, if_false]; exact hx.attr6
+    | false => simp only [Bool.false_eq_true, if_false]; exact attrs_clear40_6 _
+  obtain ⟨hp16, hp4, hp5⟩ := preserved0C_x86 g hfpid hlr hx.pres16 hx.presSp
+  have hpres0 : g.fin1.preserved 0 = g.preserved0C := rfl
   have hdaOff : g.finalize.daOff = if g.fin1.daSlotC then u32 (g.fin1.xOffC + g.fin1.xSizeC) else invalidOff := rfl
   have hsmall := lay.small
   rw [hras] at hsmall
@@ -329,14 +329,16 @@ theorem x86_wf_of_finalize (g : Frame) (hin : LayoutIn g) (hx : X86In g) : X86WF
   exact {
     arch := hx.arch
     kA := ⟨k, hk, hA⟩
-    gp16 := Nat.lt_of_le_of_lt Nat.and_le_right hx.pres16
+    gp16 := by
+      show g.fin1.dirty 0 &&& g.fin1.preserved 0 < _
+      rw [hpres0]; exact Nat.lt_of_le_of_lt Nat.and_le_right hp16
     noSp := by
-      show (g.fin1.dirty 0 &&& g.preserved 0).testBit 4 = false
-      rw [Nat.testBit_and, hx.presSp, Bool.and_false]
+      show (g.fin1.dirty 0 &&& g.fin1.preserved 0).testBit 4 = false
+      rw [hpres0, Nat.testBit_and, hp4, Bool.and_false]
     fpSaved := fun h => by
       rw [hfp] at h
-      show (g.fin1.dirty 0 &&& g.preserved 0).testBit 5 = true
-      rw [Nat.testBit_and, hdirty5 h, hx.presFp]; rfl
+      show (g.fin1.dirty 0 &&& g.fin1.preserved 0).testBit 5 = true
+      rw [hpres0, Nat.testBit_and, hdirty5 h, hp5 h]; rfl
     ppSize := hpp
     xSize := hxs
     keep := ⟨s1a, s2a, s3a⟩
@@ -412,6 +414,7 @@ theorem x86_wf_of_finalize (g : Frame) (hin : LayoutIn g) (hx : X86In g) : X86WF
       rw [hfp]
       show g.fin1.saOffSaC = (if g.hasFP = true then 2 * g.arch.W else g.arch.W + g.fin1.ppSizeC)
       unfold Frame.saOffSaC Frame.regSize
+      rw [show g.fin1.arch.lrId = none from hlr, Option.isNone_none, Bool.and_true]
       rw [hras, show g.fin1.hasFP = g.hasFP from rfl, show g.fin1.srSize 0 = g.arch.W from s0a]
       have hb : g.fin1.ppSizeC < 2 ^ 16 := by unfold Frame.ppSizeC u16; exact Nat.mod_lt _ (by omega)
       cases g.hasFP with
@@ -476,14 +479,12 @@ theorem x86In_init (arch : Arch) (harch : arch = .x86 ∨ arch = .x64) (id : Nat
     sr3 := ⟨k7, k8⟩
     pres16 := by show clearBit (ci.preserved 0) ci.arch.spId < _; rw [k0]; exact k9
     presSp := by show (clearBit (ci.preserved 0) ci.arch.spId).testBit 4 = false; rw [k0]; exact k10
-    presFp := by show (clearBit (ci.preserved 0) ci.arch.spId).testBit 5 = true; rw [k0]; exact k11
     nat := by
       show u8 ci.natAlign ≤ u8 ci.natAlign ∧ u8 (u32 (ci.natAlign * 2)) = 2 * u8 ci.natAlign ∧ ∃ n, u8 ci.natAlign = 2 ^ n
       rcases k12 with h | h <;> rw [h]
       · exact ⟨Nat.le_refl _, by decide, 2, by decide⟩
       · exact ⟨Nat.le_refl _, by decide, 4, by decide⟩
     sa := Or.inl rfl
-    attr6 := by show Nat.testBit 0 6 = false; decide
   }
 
 /-- the setters used between `init` and `finalize` keep `X86In` (alignments only grow the final alignment) -/
@@ -491,7 +492,7 @@ theorem x86In_setters (g : Frame) (hx : X86In g) (ls la cs ca : Nat) :
     X86In ((((g.setLocalSize ls).setLocalAlign la).setCallSize cs).setCallAlign ca) := by
   obtain ⟨n1, n2, n3⟩ := hx.nat
   exact { arch := hx.arch, sr0 := hx.sr0, sr1 := hx.sr1, sr2 := hx.sr2, sr3 := hx.sr3, pres16 := hx.pres16,
-          presSp := hx.presSp, presFp := hx.presFp, sa := hx.sa, attr6 := hx.attr6,
+          presSp := hx.presSp, sa := hx.sa,
           nat := ⟨by
             show g.natAlign ≤ max3 g.natAlign (u8 ca) (u8 la)
             unfold max3; omega, n2, n3⟩ }
@@ -523,12 +524,13 @@ structure A64In (g : Frame) : Prop where
   sr1 : (g.srSize 1 = 8 ∨ g.srSize 1 = 16) ∧ g.srAlign 1 = 16
   sr23 : g.srSize 2 = 0 ∧ g.srSize 3 = 0 ∧ g.srAlign 2 = 8 ∧ g.srAlign 3 = 1
   presSp : (g.preserved 0).testBit 31 = false
-  presFpLr : (g.preserved 0).testBit 29 = true ∧ (g.preserved 0).testBit 30 = true
+  /-- the link register is callee-saved (x29 need not be: fixes/C07-5) -/
+  presLr : (g.preserved 0).testBit 30 = true
   pres23 : ∀ gi, 2 ≤ gi → g.preserved gi = 0
   /-- excludes the open finding: no dynamic alignment … -/
   align : g.natAlign = 16 ∧ g.finalAlign = 16 ∧ g.minDynAlign = 32
-  /-- … and no stack-argument base register other than `sp` -/
-  sa : g.saRegId = 0xFF ∨ g.saRegId = 31
+  /-- … and no stack-argument base register other than `sp` or the preserved frame pointer (fixes/C07-7) -/
+  sa : g.saRegId = 0xFF ∨ g.saRegId = 31 ∨ (g.saRegId = 29 ∧ g.hasFP = true)
   cleanup : g.calleeCleanup = 0
 
 theorem a64_wf_of_finalize (g : Frame) (hin : LayoutIn g) (ha : A64In g) : A64WF g.finalize := by
@@ -543,34 +545,61 @@ theorem a64_wf_of_finalize (g : Frame) (hin : LayoutIn g) (ha : A64In g) : A64WF
   have hfpid : g.arch.fpId = 29 := by rw [harch]; rfl
   have hnda : g.hasDA = false := by unfold Frame.hasDA; rw [hM, hA]; decide
   have hras : g.fin1.retAddrSize = 0 := by unfold Frame.retAddrSize; simp only [Frame.fin1, hlr]; rfl
-  have hsaC : g.saC = 31 := by
+  have hsaC : g.saC = 31 ∨ (g.saC = 29 ∧ g.hasFP = true) := by
     unfold Frame.saC
     simp only [hsp, hnda, Bool.false_eq_true, false_and, if_false]
-    rcases ha.sa with h | h <;> rw [h] <;> simp
-  have hsaId : g.fin1.saRegId = 31 := by show u8 g.saC = 31; rw [hsaC]; rfl
+    rcases ha.sa with h | h | ⟨h, hfp⟩
+    · rw [h]; simp
+    · rw [h]; simp
+    · rw [h]; simp [hfp]
+  have hsaId : g.fin1.saRegId = 31 ∨ (g.fin1.saRegId = 29 ∧ g.hasFP = true) := by
+    show u8 g.saC = 31 ∨ (u8 g.saC = 29 ∧ _)
+    rcases hsaC with h | ⟨h, hfp⟩ <;> rw [h]
+    · exact Or.inl rfl
+    · exact Or.inr ⟨rfl, hfp⟩
   have hd0 : g.fin1.dirty 0 = u32 g.dirty0C := rfl
   have hdirtyFp : g.hasFP = true → (g.fin1.dirty 0).testBit 29 = true ∧ (g.fin1.dirty 0).testBit 30 = true := by
     intro hfp
     rw [hd0, tb_u32 _ 29 (by omega), tb_u32 _ 30 (by omega)]
     unfold Frame.dirty0C
-    simp only [hsp, hfpid, hlr, hfp, if_true, hsaC, ne_eq, not_true_eq_false, if_false]
-    exact ⟨tb_or_left _ _ _ (tb_or_bit _ 29), tb_or_bit _ 30⟩
-  have hsaved (gi r : Nat) : (g.finalize.saved gi).testBit r = ((g.fin1.dirty gi).testBit r && (g.preserved gi).testBit r) := by
-    show (g.fin1.dirty gi &&& g.preserved gi).testBit r = _
+    simp only [hsp, hfpid, hlr, hfp, if_true]
+    split
+    · exact ⟨tb_or_left _ _ _ (tb_or_left _ _ _ (tb_or_bit _ 29)), tb_or_left _ _ _ (tb_or_bit _ 30)⟩
+    · exact ⟨tb_or_left _ _ _ (tb_or_bit _ 29), tb_or_bit _ 30⟩
+  have hsaved (gi r : Nat) : (g.finalize.saved gi).testBit r = ((g.fin1.dirty gi).testBit r && (g.fin1.preserved gi).testBit r) := by
+    show (g.fin1.dirty gi &&& g.fin1.preserved gi).testBit r = _
     rw [Nat.testBit_and]
+  have hfinFP : g.finalize.hasFP = g.hasFP := by
+    show (if g.fin1.alignedVecC then g.attrs ||| 0x40 else g.attrs &&& (2 ^ 32 - 1 - 0x40)).testBit 4 = _
+    split
+    · exact attrs_or40 _ 4 (by omega)
+    · exact attrs_clear40 _ 4 (by omega) (by omega)
+  -- GP preserved mask after finalize: FP and LR added when the frame pointer is preserved
+  have hpres0 : g.fin1.preserved 0 = g.preserved0C := rfl
+  have hp31 : g.preserved0C.testBit 31 = false := by
+    unfold Frame.preserved0C
+    split
+    · simp only [hfpid, hlr]
+      rw [tb_u32 _ 31 (by omega), Nat.testBit_or, Nat.testBit_or, ha.presSp, tb_bit, tb_bit]; rfl
+    · exact ha.presSp
+  have hp30 : g.preserved0C.testBit 30 = true := by
+    unfold Frame.preserved0C
+    split
+    · simp only [hfpid, hlr]
+      rw [tb_u32 _ 30 (by omega)]; exact tb_or_bit _ 30
+    · exact ha.presLr
+  have hp29 : g.hasFP = true → g.preserved0C.testBit 29 = true := by
+    intro hfp
+    unfold Frame.preserved0C
+    simp only [hfp, if_true, hfpid, hlr]
+    rw [tb_u32 _ 29 (by omega)]; exact tb_or_left _ _ _ (tb_or_bit _ 29)
   have hfpSaved : g.finalize.hasFP = true → (g.finalize.saved 0).testBit 29 = true ∧ (g.finalize.saved 0).testBit 30 = true := by
     intro hfp
-    have hfp' : g.hasFP = true := by
-      have : g.finalize.hasFP = g.hasFP := by
-        show (if g.fin1.alignedVecC then g.attrs ||| 0x40 else g.attrs).testBit 4 = _
-        split
-        · exact attrs_or40 _ 4 (by omega)
-        · rfl
-      rw [← this]; exact hfp
+    have hfp' : g.hasFP = true := by rw [← hfinFP]; exact hfp
     obtain ⟨d1, d2⟩ := hdirtyFp hfp'
-    rw [hsaved, hsaved, d1, d2, ha.presFpLr.1, ha.presFpLr.2]; exact ⟨rfl, rfl⟩
-  have h31 : (g.finalize.saved 0).testBit 31 = false := by rw [hsaved, ha.presSp, Bool.and_false]
-  obtain ⟨i1, i2, i3, i4, i5, i6, i7, i8⟩ :=
+    rw [hsaved, hsaved, d1, d2, hpres0, hp29 hfp', hp30]; exact ⟨rfl, rfl⟩
+  have h31 : (g.finalize.saved 0).testBit 31 = false := by rw [hsaved, hpres0, hp31, Bool.and_false]
+  obtain ⟨i1, i2, i3, i4, i5, i6, i7, i8, i9⟩ :=
     a64_items_facts g.finalize harch ⟨s0a, s0b⟩ ⟨s1a, s1b⟩ hfpSaved h31
   -- save-area sizes
   have hn0 := nSaved_le g.finalize 0
@@ -652,7 +681,20 @@ theorem a64_wf_of_finalize (g : Frame) (hin : LayoutIn g) (ha : A64In g) : A64WF
   exact {
     arch := harch
     noDA := hnda
-    sa := hsaId
+    sa := by
+      rcases hsaId with h | ⟨h, hfp⟩
+      · exact Or.inl h
+      · exact Or.inr ⟨h, by rw [hfinFP]; exact hfp⟩
+    saOffSa := by
+      show g.fin1.saOffSaC = g.fin1.ppSizeC
+      unfold Frame.saOffSaC
+      rw [show g.fin1.arch.lrId = some 30 from hlr]
+      simp only [Option.isNone_some, Bool.and_false, Bool.false_eq_true, if_false]
+      rw [hras, Nat.zero_add]
+      unfold u32 Frame.ppSizeC u16
+      have := Nat.mod_lt (g.fin1.saveSizeSum true) (show 0 < 2 ^ 16 by omega)
+      rw [Nat.mod_eq_of_lt (by omega)]
+    fpFirst := i9
     align := ⟨hA, hN⟩
     cleanup := ha.cleanup
     localFits := by
@@ -704,18 +746,15 @@ theorem a64_wf_of_finalize (g : Frame) (hin : LayoutIn g) (ha : A64In g) : A64WF
     sizes := fun it hit => (i7 it hit).1
     fpMv := fun ⟨it, hit, hm⟩ => (i7 it hit).2.2 hm
     fpDirty := fun hfp => by
-      have hfp' : g.hasFP = true := by
-        have : g.finalize.hasFP = g.hasFP := by
-          show (if g.fin1.alignedVecC then g.attrs ||| 0x40 else g.attrs).testBit 4 = _
-          split
-          · exact attrs_or40 _ 4 (by omega)
-          · rfl
-        rw [← this]; exact hfp
+      have hfp' : g.hasFP = true := by rw [← hfinFP]; exact hfp
       exact (hdirtyFp hfp').1
-    lrPres := ha.presFpLr.2
+    lrPres := hp30
     noX := fun gi hgi => by
-      show g.fin1.dirty gi &&& g.preserved gi = 0
-      rw [ha.pres23 gi hgi, Nat.and_zero]
+      show g.fin1.dirty gi &&& g.fin1.preserved gi = 0
+      have : g.fin1.preserved gi = g.preserved gi := by
+        show (if gi = 0 then _ else g.preserved gi) = _
+        rw [if_neg (by omega)]
+      rw [this, ha.pres23 gi hgi, Nat.and_zero]
   }
 
 /-- **C07 on AArch64, partial** (excludes exactly the open finding: dynamic alignment / SA register).
@@ -767,9 +806,9 @@ theorem a64In_init (id : Nat) (win : Bool) (ci : CallConvInfo) (used : Nat → N
     sr1 := ⟨k3, k4⟩
     sr23 := ⟨k5, k6, k7, k8⟩
     presSp := by show (clearBit (ci.preserved 0) ci.arch.spId).testBit 31 = false; rw [k0]; exact k9
-    presFpLr := by
-      show (clearBit (ci.preserved 0) ci.arch.spId).testBit 29 = true ∧ (clearBit (ci.preserved 0) ci.arch.spId).testBit 30 = true
-      rw [k0]; exact ⟨k10, k11⟩
+    presLr := by
+      show (clearBit (ci.preserved 0) ci.arch.spId).testBit 30 = true
+      rw [k0]; exact k11
     pres23 := fun gi hgi => by
       show (if gi = 0 then _ else ci.preserved gi) = 0
       rw [if_neg (by omega)]
@@ -816,8 +855,8 @@ example : ∃ s1, run .a64 ((a64Prolog exA64.finalize).getD []) (initState .a64 
           ∧ exitOk exA64.finalize (initState .a64 0x40000000) s3 = true := by
   have hin : A64In exA64 := by
     have h := a64In_init 0 false _ (tbl4 0x380000 0x100 0 0) 0 rfl
-    exact { arch := h.arch, sr0 := h.sr0, sr1 := h.sr1, sr23 := h.sr23, presSp := h.presSp, presFpLr := h.presFpLr,
-            pres23 := h.pres23, align := ⟨by decide, by decide, by decide⟩, sa := h.sa, cleanup := h.cleanup }
+    exact { arch := h.arch, sr0 := h.sr0, sr1 := h.sr1, sr23 := h.sr23, presSp := h.presSp, presLr := h.presLr,
+            pres23 := h.pres23, align := ⟨by decide, by decide, by decide⟩, sa := Or.inl rfl, cleanup := h.cleanup }
   obtain ⟨s1, h1, h2, h3, _, h5⟩ := a64_prolog_body_epilog_partial exA64
     ⟨⟨4, by decide, by decide⟩, ⟨3, by decide, by decide⟩, by decide, by decide⟩ hin
     ((a64Prolog exA64.finalize).getD []) ((a64Epilog exA64.finalize).getD []) (by decide) (by decide)
